@@ -68,6 +68,164 @@ CHECKS = {
         "the qubit reference; tolerance 1e-9 without entangling gates and a derived KLM budget per entangling gate.",
         "At most 2 entangling gates per circuit and Fock dimension caps (by construction, reported); angles from a finite set; depth 3-4, not 8.",
     ),
+    "C01": (
+        "model_checking",
+        "DESIGN.md 2.4, 2.5, 3/C01",
+        "lock-step explicit-state BFS over instruction sequences on four simulators (Gaussian, pure Fock, mixed Fock, passive) plus a dense reference, agreement checked on every transition on provably exact sectors",
+        "Every instruction sequence up to the depth bound over a finite alphabet (every gate kind on every ORDERED mode tuple, generic parameters) "
+        "from vacuum and all number-state roots with <= 2 photons is executed through the public path on every simulator that supports it, at "
+        "cutoffs 1..4(5) and several hbar; pure/mixed/passive must agree on all components (1e-9), Gaussian vs Fock on the sectors an exactness "
+        "tracker proves exact (1e-8); depth-1 transitions are also compared with a dense expm reference. The tracker is self-tested against a "
+        "cutoff+6 run (failure = harness error, never a violation).",
+        "Finite parameter catalogue (continuous parameters are not decided); depth 2-3; Gaussian<->Fock agreement is vacuous once a second active "
+        "gate hits a mode (E = 0), which is intrinsic to truncation.",
+    ),
+    "C03": (
+        "model_checking",
+        "DESIGN.md 2.6, 3/C03",
+        "exhaustive enumeration of outcome histories: every multiset of N outcomes at every categorical draw (harness-owned RNG), every shots=None outcome tree, every ordered set partition of the measured modes, against an exact reference projection model",
+        "Adaptive programs (partial measurements on every ordered mode subset, post-selection, conditioned gates, outcome-dependent parameters) up "
+        "to the depth bound on PureFock, Fock, Passive and fermionic PureFock simulators. shots=N: every path of the owned randomness is executed; "
+        "sample counts, Fraction frequencies k/N, nested budgets and the drawn conditional laws are checked exactly. shots=None: branch weights, "
+        "normalised branch states and sequential-vs-joint measurement over every ordered set partition are compared with the reference (1e-9). "
+        "Gaussian general-dyne chain rule on a lattice of answers.",
+        "Number-conserving gates only; lossy / distinguishable passive states not enumerated; shots N <= 3 (4 thorough).",
+    ),
+    "C04": (
+        "exploration",
+        "DESIGN.md 2.9, 3/C04",
+        "bounded-exhaustive enumeration of multiplicity vectors x matrix alphabets x dtype x memory layout x entry point against exact rational-arithmetic references, plus the same vectors through ASan/UBSan builds of the unmodified native sources",
+        "Every (rows, cols) multiplicity pair up to the tier total on 1x1..8x8, every occupation vector for the (loop) hafnians and their batched "
+        "variants, torontonians up to 5(6) modes, all small antisymmetric integer matrices for the Pfaffian, through the pybind modules (float32 / "
+        "float64, C / F / strided / negative-stride / read-only views), the connectors and the JAX entry points; values compared with exact "
+        "references (1e-9 relative to the natural rounding scale), and every sanitizer report of the standalone drivers is a violation.",
+        "Matrix entries from exactly representable alphabets (structured + a few seeded generic ones); float32 only for small totals; the Gray-code "
+        "offset truncation above 2^31 addends is out of budget.",
+    ),
+    "C05": (
+        "model_checking",
+        "DESIGN.md 3/C05",
+        "explicit-state search over PassiveState configurations (input pattern x passive gates x loss x post-selection x distinguishability), four probability interfaces compared with each other and with an independent unitary-dilation reference in every state",
+        "Every program in a union of stated boxes (all compositions of n<=3(4) photons on d<=3(4) modes incl. bunched, gates on every ordered "
+        "tuple, per-mode / uniform / matrix loss incl. complex, every post-selection pattern, overlaps and Gram matrices) is executed through "
+        "PassiveSimulator; in every distinct state single-outcome probabilities, the table, the map, |state_vector|^2, every ordered marginal "
+        "(method and shots=None measurement path) are compared mutually and with the dilation reference (three independent routes), non-negativity "
+        "and normalisation included.",
+        "Union of boxes rather than the full depth-3 product; NumPy connector; unsupported cells (NotImplementedCalculation) are counted.",
+    ),
+    "C07": (
+        "exploration",
+        "DESIGN.md 3/C07",
+        "bounded-exhaustive grid: every linear gate class x 13-point lattice per parameter x every ordered mode tuple x hbar x base states, against a symplectic reference written from the documented matrices; polynomial-degree argument for sufficiency of the lattice",
+        "For every gate class with passive/active blocks: blocks equal the documented ones, are symplectic (unitary for passive gates), the Gaussian "
+        "simulator's result equals the congruence by the harness-embedded symplectic matrix on every ordered mode tuple (d<=3, 5 thorough) and four "
+        "hbar values, displacements shift by sqrt(2 hbar) alpha, and the four documented identities and depth-2 compositions hold on the whole "
+        "lattice.",
+        "'For all real parameters' is decided only under the assumption that block entries are low-degree (trigonometric / hyperbolic) polynomials "
+        "of the parameters without parameter-dependent branching (DESIGN 3/C07).",
+    ),
+    "C08": (
+        "model_checking",
+        "DESIGN.md 3/C08",
+        "explicit-state BFS per simulator with physicality invariants evaluated on every reached state, including channels, post-measurement (shots=None) and post-selected branch states and general-dyne conditional states on an outcome lattice",
+        "Every state reached by the alphabets of C01 / C05 / C17 plus channels is checked: Gaussian covariance real, symmetric, uncertainty relation; "
+        "purity in (0,1] and 1 on unitary histories; mixed-Fock Hermiticity, positivity, trace <= 1; pure-Fock norm preserved by number-conserving "
+        "gates; every reported probability in [0,1]; fermionic spectra; validate() on normalised states. The predicates are self-tested on planted "
+        "unphysical states.",
+        "Finite alphabets and depth; crashes of interfaces are counted (they belong to C13), not reported here.",
+    ),
+    "C09": (
+        "model_checking",
+        "DESIGN.md 3/C09",
+        "lock-step explicit-state BFS whose implementations are the same simulator under NumPy / TensorFlow (eager, tf.function) / JAX (eager, jit); state and observables compared on every transition; connector-level linear algebra on a matrix catalogue",
+        "Every transition of the explored programs is executed under every connector mode the simulator accepts and compared with the NumPy result "
+        "(state vector incl. phase, probabilities, Gaussian moments and observables, fermionic covariance) at 1e-9; compiled variants re-run whole "
+        "histories with traced parameters; polar / svd / schur / sqrtm / logm / expm / permanent / hafnian shims are compared with NumPy/SciPy on a "
+        "catalogue (unique results directly, non-unique factors by reconstruction).",
+        "Small depth (quick: d<=2); tracing refusals are unsupported cells; float64 only.",
+    ),
+    "C10": (
+        "exploration",
+        "DESIGN.md 3/C10",
+        "exhaustive circuit shapes x parameter lattice x AD mode, Jacobians from TensorFlow / JAX compared with Richardson-extrapolated central differences of the NumPy simulation",
+        "Every sequence up to depth 2 over the differentiable gate alphabet on every ordered mode tuple, every parameter on a 5-point lattice, all "
+        "outputs (Fock probabilities, mean photon number, mean position, norm), TF eager with custom gradients, TF default pfor path, tf.function, "
+        "jax jit; batched states; jax_extensions.perm for every multiplicity pair up to total 4; tolerance 1e-6(1+|g|), finite-difference points "
+        "that are not smooth are counted and skipped.",
+        "Parameter lattice in a bounded box; finite differences as oracle (second extrapolation must agree); JAX cannot differentiate Euler-route "
+        "gates (unsupported cells).",
+    ),
+    "C11": (
+        "model_checking",
+        "DESIGN.md 2.8, 3/C11",
+        "exhaustive histories (<=2 intruder events in every slot), exhaustive dask task orders and <=2-preemption interleavings under a harness-owned scheduler, every job count / team size / thread order of the native permanent through an interposed hardware_concurrency and a GOMP shim, TSan on the free-running build, numba thread counts 1..16",
+        "Seeded sampling programs on every simulator must return byte-identical samples and branches for every placement of up to two intruder "
+        "events (other Configs, other runs, global RNG use, as_code, validate); use_dask=True must equal use_dask=False for every task order and "
+        "bounded-preemption interleaving; different seeds must give different 64-shot sequences where the law has >= 1 bit of min-entropy; "
+        "deterministic kernels must agree across all partitions and thread counts (1e-12 relative) and with the exact reference.",
+        "Weak memory orderings are not modelled; numba prange races are only found by free-running repetition (probabilistic, re-confirmed before "
+        "reporting); preemption points only at calls on the shared generators.",
+    ),
+    "C12": (
+        "fault_enumeration",
+        "DESIGN.md 2.7, 3/C12",
+        "exhaustive fault injection: an exception at every (instruction position, stage, branch visit) and at every line event of the API layer (sys.settrace), object-graph snapshot equality before/after, re-execution equality",
+        "Adaptive programs (string / callable parameters, conditions, all-modes instructions, remapped modes after mid-circuit measurements, nested "
+        "registration) on four simulators x operations (execute, execute_instructions, validate, copy, as_code, blackbird export, nesting); after "
+        "every faulted or fault-free run the caller's Program, instruction modes / params / conditions, initial_state, Config and arrays must be "
+        "unchanged and a re-execution must equal a fresh one; every connector matrix function on C / F / strided / read-only arrays must leave "
+        "its argument bytes unchanged.",
+        "Line-level faults only in the API-layer files; asynchronous exceptions inside finally blocks out of scope; NumPy connector.",
+    ),
+    "C13": (
+        "model_checking",
+        "DESIGN.md 3/C13",
+        "exhaustive single-fault mutation of every valid base program (reject side, with a step counter on every simulation step) and exhaustive documented-support matrix plus every shots=None outcome history (accept side)",
+        "Reject: every structural or documented parameter violation, one at a time at every position of every base program of six simulators, must "
+        "raise a Piquasso exception with zero completed simulation steps and no Result. Accept: every instruction in each simulator's docstring "
+        "support lists x d x cutoff 1..4(5) x placements must execute, and adaptive shots=None programs must run on every outcome branch down to "
+        "cutoff 1.",
+        "'Before any evolution' is decided by completed steps; documented promises were extracted by hand into a table (file:line recorded).",
+    ),
+    "C14": (
+        "model_checking",
+        "DESIGN.md 3/C14",
+        "lock-step BFS of the Gaussian simulator at four hbar values; in every state cross-hbar invariance / scaling of all observables and consistency of all representations, setters/getters, reduce/rotate against a symplectic reference",
+        "Every Gaussian program up to the depth bound (all gates on ordered tuples, preparations, channels) is executed at hbar in {0.5,1,2,3.7}; "
+        "means scale with sqrt(hbar), covariances with hbar; photon statistics, purity, fidelity, parity, phase-shifter expectations (distinct "
+        "angles), threshold probabilities, density matrix are hbar independent and equal closed-form reference values where available; xpxp / xxpp "
+        "/ complex / (m,C,G) representations, setters, reduced and rotated agree with the reference conversions; ordered moments up to length 3.",
+        "Finite alphabets; fidelity tolerance 1e-6 (measured library spread 8e-8 from sqrt(w^2-1) at w~1).",
+    ),
+    "C16": (
+        "model_checking",
+        "DESIGN.md 3/C16",
+        "metamorphic relations on every explored transition: all d! relabellings of the program executed in lock-step, and both orders of every pair of alphabet actions with disjoint supports",
+        "For every explored program and every permutation of the mode labels the relabelled program must give the correspondingly permuted state, "
+        "shots=None outcome maps and branch states (all simulators); every disjoint pair of actions must commute (all components on Gaussian, "
+        "passive, fermionic Gaussian; number-conserving pairs or exact sectors on the Fock simulators).",
+        "Finite alphabets and depth; the fermionic Fock simulator refuses most non-window relabellings (counted).",
+    ),
+    "C18": (
+        "exploration",
+        "DESIGN.md 3/C18",
+        "bounded-exhaustive round trips (Blackbird, as_code, from_dict, copy), every injective register map for nesting, every expression tree with <=4(5) leaves for the preparation algebra, against dict-arithmetic references",
+        "Every program over the exportable classes x float lattice x ordered mode tuples round-trips through Blackbird text; as_code output is "
+        "exec'd and must reproduce types, modes, bit-exact params, Config and result for every Config field combination of size <= 2; nesting "
+        "through every injective register map up to depth 3; every +, c*, *c, /c tree over NumberState / StateVector / FockStateVector leaves equals "
+        "the reference linear combination.",
+        "Default connector only; fermionic as_code not covered.",
+    ),
+    "C20": (
+        "exploration",
+        "DESIGN.md 3/C20",
+        "bounded-exhaustive enumeration of expression ASTs (by depth and leaf count) x outcome tuples against CPython eval, and every single-token hostile mutation with a canary",
+        "Every AST of the supported grammar in the stated families is unparsed, accepted and evaluated on every outcome tuple of length <= 3(4) over "
+        "{0,1,2} (+ float and NumPy variants) and must equal Python's value / truthiness / exception type; every single-token mutation by a hostile "
+        "token and a corpus of hostile strings must be rejected at construction without any canary (builtin, global, import hook, attribute) firing; "
+        "the same through Instruction.when and string parameters.",
+        "Families bounded by leaf count, not pure depth; operators outside the documented list are accepted only if they mean what Python means.",
+    ),
 }
 
 NOT_APPLICABLE = {}
